@@ -364,6 +364,15 @@ func (x *Exec) verifAPI(name string, fn *ssa.Function, args []Value) (Value, boo
 	case "Cover":
 		x.covers[x.strArg(args[0])] = true
 		return nil, true
+	case "MustFinishWithin":
+		// MustFinishWithin(n int): the code up to the matching Finished() executes at most n SSA
+		// instructions on every path; a feasible path that needs more is reported as a hang
+		n := int(args[0].(*smt.Term).Val)
+		x.hangBound = x.steps + n
+		return nil, true
+	case "Finished":
+		x.hangBound = 0
+		return nil, true
 	case "Stub":
 		x.stubs[x.strArg(args[0])] = args[1].(Iface).V
 		return nil, true
